@@ -35,7 +35,9 @@ CHECKS = {
          'effects after the engine returns; the jit build selects translated code for ROM addresses only and otherwise the same '
          'interpreter entry point; both engines end blocks on is_block_end of the decoder output and their loop-exit '
          'predicates are the same Boolean function of (terminator, block start, next address) on the translator domain '
-         '(bit-precise comparison).',
+         '(bit-precise comparison; the translator function is read off two consecutive iterations from the summarised loop '
+         'state, so it does not depend on how the loop is written).  C04.4 additionally runs the value-level comparison '
+         'of C01.10 / C02.4 (emitted x86 code vs interpreter, every encoding) so that this check stands on its own.',
     note=TB + 'Inherits the limits of C01-C03; per-step equality of device state is not claimed.',
     ref='DESIGN.md#c04'),
  'C13': dict(
@@ -43,7 +45,8 @@ CHECKS = {
     text='Decides the structure that makes DIV/TIMA right: rate table (TAC&3 -> bit 9/3/5/7), DIV = bits 8-15, reset on write, '
          'overflow reload + request, the falling-edge firing condition of the +1 step and of a TAC write (from path '
          'conditions), and batching invariance by loop uniformity (remaining count only in guard/decrement, OR-accumulated '
-         'requests, final mask commutes, disabled fast path equivalent). Exact counter values for a given history are '
+         'requests, final mask commutes, disabled fast path equivalent), and that the request a TAC write produces is merged into IF by '
+         'IO::set_byte. Exact counter values for a given history are '
          'runtime arithmetic and are not decided.',
     note=TB + 'u32 cycle counter does not overflow within one batch.',
     ref='DESIGN.md#c13'),
@@ -53,12 +56,17 @@ CHECKS = {
          '144-153; every mode exit tests and subtracts the same K with K2+K3+K0 = K1 = 456, LY changes only at exits and '
          'wraps only from 153, hence a 70224-clock frame; VBlank is requested exactly on the step that makes LY 144 with '
          'the buffer swap; every mode entry tests its STAT enable and every LY change / LYC write / STAT write compares LY '
-         'with LYC; STAT register composition; uniform 4-clock steps independent of batching.',
+         'with LYC; every STAT request is justified by a mode entered or an LY == LYC reached in that very step (no repeats); the '
+         'requests of STAT / LYC writes reach IF; the request accumulator keeps earlier requests on every iteration path; STAT '
+         'register composition; uniform 4-clock steps independent of batching.',
     note=TB + 'Delivered clock counts are multiples of 4 (C09.6). Pixel output is C15 (not applicable).',
     ref='DESIGN.md#c14'),
  'C16': dict(
     technique='bus-model extraction + symbolic loop iteration + paired-counter lemma + assert discharge',
-    text='Decides: a transfer is armed only by the 0xff46 write with source = value<<8 and offset 0; each step reads '
+    text='Decides: a transfer is armed only by the 0xff46 write with source = value<<8 and offset 0, whatever the state before '
+         '(a write during a transfer restarts it); the copy loop is understood in three forms (count-down of bytes remaining, '
+         'count-up of the offset to a computed end, progress kept in the transfer state with a machine-cycle budget), any other '
+         'shape is no verdict; each step reads '
          'source+offset through the bus and writes that byte to 0xfe00+offset; offset <= 0x9f inside the loop by the '
          'paired-counter lemma (offset + remaining invariant, remaining0 = min(0xa0-offset0, clocks/4), saved offset <= '
          '0x9f by field invariant), so only OAM is written; retire exactly at 0xa0, otherwise saved with progress; DMA '
@@ -71,13 +79,16 @@ CHECKS = {
     text='Decides: press/release map every button to the hardware matrix bit; selection polarity; P1 reads 0 on a line '
          'exactly when a selected group has it pressed and echoes the select bits (per selection combination, per line); '
          'the latch guard holds whenever some line falls while the others change arbitrarily (selection change) or alone '
-         '(button press) and not when no line can have fallen; read-and-clear once per tick; routing. The full 256x4x20 '
+         '(button press) and not when no line can have fallen - decided with get_value as the real function of the state before / '
+         'after the operation, bit-precisely; read-and-clear once per tick; routing. The full 256x4x20 '
          'transition relation itself is runtime data.',
     note=TB,
     ref='DESIGN.md#c17'),
  'C19': dict(
     technique='layout facts, structural scan, affine form of the unrolled checksum loop, dominance on load_rom paths, exhaustive table evaluation, taint',
-    text='Decides: header layout and read_header protocol; the checksum is x = x - byte - 1 over exactly 0x34..=0x4c compared '
+    text='Decides: header layout and read_header protocol (on the paths of read_header: seek to Start(0x100), read exactly '
+         'size_of::<Header>() bytes, Ok only when both succeeded and the position is 0x100); the mapping failure value is tested '
+         'before the region is used; the checksum is x = x - byte - 1 over exactly 0x34..=0x4c compared '
          'with the byte at 0x4d; Core::from_rom_file is reached only when valid_checksum is true and after the file length '
          'was compared with the declared ROM size; size tables equal the cartridge tables for all 256 codes; unsupported '
          'types diverge at load; no unchecked reinterpretation of header bytes.',
@@ -88,8 +99,9 @@ CHECKS = {
     text='Decides: no assert/panic/unwrap reachable from the three parsing functions; the unsafe get_unchecked(2..) is guarded '
          'by starts_with("0x"); command literals are lower case and the compared word flows from '
          'split_whitespace -> trim -> to_lowercase; the disassembler advances cursor and address by the length of the '
-         'decode call whose slice starts at the cursor, loops while cursor < len, and its 4-byte buffer covers the maximum '
-         'decoder length. Numeric parsing correctness rests on the std contracts of from_str_radix / parse::<u16> '
+         'decode call whose slice starts at the cursor (a relation between two consecutive iterations: decode#2 gets '
+         'input[start#1 + length#1 ..], address#2 = address#1 + length#1, the slice runs to the end, exit only when nothing is '
+         'left - cursor or remaining-slice style alike), and its 4-byte buffer covers the maximum decoder length. Numeric parsing correctness rests on the std contracts of from_str_radix / parse::<u16> '
          '(necessary-condition rule).',
     note=TB + 'Disassembly precondition from the property: the input ends on an instruction boundary.',
     ref='DESIGN.md#c20'),
@@ -105,12 +117,14 @@ CHECKS = {
     ref='DESIGN.md#c03'),
  'C07': dict(
     technique='exhaustive path enumeration of Core::handle_interrupt with known-bits path conditions',
-    text='Decides for all IF/IE values, master-enable states and stack pointers: wake-up before any IME test; no effect '
+    text='Decides for all IF/IE values, master-enable states and stack pointers: run_state := Run is stored exactly when '
+         '(IF & IE) != 0 on entry (value level) and before any IME test; no effect '
          'but run_state when IME is off; the dispatch path clears IME, pushes PC high then low at SP-1/SP-2 (mod 2^16, SP '
          'stays 16-bit), re-samples the pending set between the pushes (bus write modelled as a field-sensitive havoc of '
          'MemoryAreas), charges 5 cycles; the priority ladder and cleared bit per vector (known bits of the re-sampled '
          'set on each path), the cancelled case; IF/IE are 5-bit by field invariant; handle_interrupt is the last effect '
-         'of every step function and has no other caller. Both configurations.',
+         'of every step function (interprocedural cut) and is called only from the step functions and their private helpers. '
+         'Both configurations.',
     note=TB + 'Registers.cycles assumed far below 2^32 (drained every step).',
     ref='DESIGN.md#c07'),
  'C08': dict(
@@ -119,7 +133,8 @@ CHECKS = {
          'complete transition relation (3 IME states x 7 status classes) of the instruction-stepping function and '
          'comparing it with the reference relation; plus: status constants distinct, only handle_interrupt loads vectors '
          'or clears IF, the suspended arm of update ticks exactly 4 clocks and executes nothing, run_state := Run only in '
-         'handle_interrupt/constructors, no fetchable range yields an empty slice.',
+         'handle_interrupt/constructors and exactly when an enabled request is pending (C08.7), EI/DI/RETI/HALT/STOP reach the '
+         'step function with their own status codes (C08.6), no fetchable range yields an empty slice.',
     note=TB + 'A sequence property of a finite deterministic machine holds for all sequences iff it holds for the relation.',
     ref='DESIGN.md#c08'),
  'C09': dict(
@@ -221,12 +236,12 @@ CHECKS = {
  'C18': dict(
     technique='effect confinement over the resolved call graph + path enumeration with known-bits',
     text='Decides, for both build configurations, that the only code reachable from the step functions that can '
-         'write standard output is SerialComms::set_control, that it writes exactly the data latch iff bit 7 of the '
-         'control value is set and flushes, that set_data is silent, and that I/O offsets 1/2 route there from '
-         'memory_write_byte only. Holds for all programs because it ranges over call-graph paths and abstract '
-         'values, not sampled runs.',
-    note=TB + 'std stdout write+flush assumed synchronous; stderr unrestricted; program order of bus writes in '
-         'translated code is C01.5.',
+         'write standard output is SerialComms::set_control (or a private helper of it), that it writes exactly the data '
+         'latch iff bit 7 of the control value is set and flushes, that set_data is silent, that I/O offsets 1/2 route there '
+         'from memory_write_byte only, and (C18.5) that for every encoding translated code makes the same ordered bus accesses '
+         'as the interpreter, so SB/SC writes arrive in program order in both execution modes. Holds for all programs because it '
+         'ranges over call-graph paths and abstract values, not sampled runs.',
+    note=TB + 'std stdout write+flush assumed synchronous; stderr unrestricted.' + VL,
     ref='DESIGN.md#c18'),
 }
 
